@@ -645,6 +645,51 @@ fn run(ctx: &Ctx) -> Run {
         }
     }
 
+    // (2e) teardown probe: an application object stored in a thread-local BEFORE the thread's first library call is destroyed
+    // after whatever the library keeps per thread; its destructor calls the library once more. The answer must be the one the
+    // call gives anywhere else (a per-thread store with a destructor of its own would already be gone at that point).
+    {
+        use std::cell::RefCell;
+        use std::sync::mpsc::{channel, Sender};
+        struct AtExit(Call, Sender<Outcome>);
+        impl Drop for AtExit {
+            fn drop(&mut self) {
+                let _ = self.1.send(self.0.exec());
+            }
+        }
+        thread_local! { static AT_EXIT: RefCell<Option<AtExit>> = const { RefCell::new(None) }; }
+        let mut rng = Rng::stream(ctx.seed, "C13.teardown", 0);
+        let candidates: Vec<usize> = (0..pool.len()).filter(|i| table[*i].kind != "panic").collect();
+        for _ in 0..ctx.n(24, 400) {
+            let k = candidates[rng.usize(candidates.len())];
+            let before: Vec<usize> = (0..rng.usize(6)).map(|_| candidates[rng.usize(candidates.len())]).collect();
+            let (tx, rx) = channel();
+            let (probe, p2) = (pool[k].clone(), pool_arc.clone());
+            let h = std::thread::spawn(move || {
+                silence_panics();
+                AT_EXIT.with(|e| *e.borrow_mut() = Some(AtExit(probe, tx)));
+                for i in before {
+                    let _ = p2[i].exec();
+                }
+            });
+            let _ = h.join();
+            run.evaluations += 1;
+            run.count("teardown_probe.threads");
+            match rx.recv_timeout(std::time::Duration::from_secs(20)) {
+                Ok(o) => {
+                    if o.digest() != table[k].digest {
+                        run.violation(
+                            "C13.history",
+                            json!({"call": pool[k].to_text(), "at": "thread teardown"}),
+                            format!("`{}` executed from a destructor at thread exit returned [{}], but [{}] when executed first in a fresh thread", pool[k].to_text(), o.short(), table[k].short),
+                        );
+                    }
+                }
+                Err(_) => run.inconclusive("the teardown probe's destructor did not report (thread-local destructors not run?)".to_string()),
+            }
+        }
+    }
+
     // (3) first-touch processes: the one-shot global initialisations race exactly once per process
     let n_proc = ctx.n(48, 600);
     let public: Vec<(usize, &Call)> = pool.iter().enumerate().filter(|(_, c)| !matches!(c, Call::Forward { .. } | Call::Inverse { .. })).collect();
